@@ -662,6 +662,7 @@ func main() {
 			os.RemoveAll(filepath.Dir(tmp))
 		}
 	}
+	veryLargeBlob(r)
 	for _, api := range []string{"verifier.Verify", "notation.Verify", "verifier.VerifyBlob", "notation.VerifyBlob"} {
 		for _, f := range lib.Formats {
 			r.RequireAtLeast("accepted:"+api+":"+f, 10)
@@ -684,4 +685,69 @@ func blobMT(present string, a struct {
 		return a.Desc.MediaType + "; charset=utf-8" // the same type WITH a parameter is another media type string
 	}
 	return a.Desc.MediaType
+}
+
+// patReader streams n bytes of a fixed pattern followed by tail.
+type patReader struct {
+	n, off int64
+	tail   []byte
+}
+
+func (p *patReader) Read(b []byte) (int, error) {
+	if p.off >= p.n+int64(len(p.tail)) {
+		return 0, io.EOF
+	}
+	k := 0
+	for k < len(b) && p.off < p.n {
+		b[k] = byte(p.off>>12) ^ byte(p.off)
+		k++
+		p.off++
+	}
+	for k < len(b) && p.off < p.n+int64(len(p.tail)) {
+		b[k] = p.tail[p.off-p.n]
+		k++
+		p.off++
+	}
+	return k, nil
+}
+
+// veryLargeBlob: a blob of 2 GiB (thorough: also 4 GiB) whose signature is genuine, presented (a) as it is - accepted,
+// with its own descriptor - and (b) with content appended after its last byte - another artifact, refused. Sizes at
+// which a 31- or 32-bit count, or a "sanity" limit on how much is read, would cut the stream short without saying so.
+func veryLargeBlob(r *lib.Run) {
+	ctx := context.Background()
+	good := lib.SimpleChain("c01-large", 0, "EC-256", 0)
+	v, err := verifier.NewVerifierWithOptions(lib.NewMemTS().Put("ca:x", good.Root().Cert), verifier.VerifierOptions{
+		BlobTrustPolicy: lib.BlobPolicy(trustpolicy.SignatureVerification{VerificationLevel: "strict"}, []string{"ca:x"}, []string{"*"}), RevocationCodeSigningValidator: lib.OKRev{}, RevocationTimestampingValidator: lib.OKRev{}})
+	if err != nil {
+		panic(err)
+	}
+	sizes := []int64{1 << 31}
+	if r.Thorough() {
+		sizes = append(sizes, 1<<32)
+	}
+	for si, n := range sizes {
+		dg := digest.SHA256.Digester()
+		if _, err := io.Copy(dg.Hash(), &patReader{n: n}); err != nil {
+			panic(err)
+		}
+		desc := ocispec.Descriptor{MediaType: "application/octet-stream", Digest: dg.Digest(), Size: n}
+		f := lib.Formats[si%2]
+		sig := lib.MustCoreSign(lib.SignSpec{Format: f, Payload: lib.Payload(desc), Signer: good})
+		vbo := notation.VerifyBlobOptions{BlobVerifierVerifyOptions: notation.BlobVerifierVerifyOptions{SignatureMediaType: f}}
+		_, _, errExt := notation.VerifyBlob(ctx, v, &patReader{n: n, tail: []byte("appended after the signed content")}, sig, vbo)
+		r.Eval(fmt.Sprintf("very-large-blob|%d|appended", n))
+		r.Event("very-large-blobs-presented")
+		if errExt == nil {
+			r.Violation(map[string]string{"kind": "accepted-other-artifact", "api": "notation.VerifyBlob", "present": "very-large-blob-with-appended-content", "meta": "none"},
+				fmt.Sprintf("%s: a blob of %d bytes + 33 appended bytes was accepted with the signature made for the first %d bytes", f, n, n), nil)
+		}
+		if si == 0 && r.Thorough() {
+			got, _, errSame := notation.VerifyBlob(ctx, v, &patReader{n: n}, sig, vbo)
+			r.Eval(fmt.Sprintf("very-large-blob|%d|same", n))
+			if errSame != nil || got.Digest != desc.Digest || got.Size != n {
+				r.Event("completeness:very-large-blob-rejected")
+			}
+		}
+	}
 }
